@@ -1,4 +1,5 @@
 SPECIFICATION Spec
+CONSTANT NearOnly = FALSE
 CONSTANT FullSpace = FALSE
 INVARIANT StageLists
 CHECK_DEADLOCK FALSE
